@@ -285,6 +285,7 @@ func (ms *Modules) process() []error {
 	// earlier run: one that failed must fail again, and one that lacked a
 	// module loaded since then must now be linked.
 	ms.includes = map[*Module]bool{}
+	ms.typeDict.run++
 
 	// Collect the list of modules we know about now so when we range
 	// below we don't pick up new modules.  We assume the user tells
